@@ -64,6 +64,11 @@ theorem strip_four (a b c d : Nat) (ha : isStrSpace a = false) (hd : isStrSpace 
   have := strip_core a d [b, c] [] ha hd (by rfl)
   simpa using this
 
+theorem stripC_four (a b c d : Nat) (ha : isBytesSpace a = false) (hd : isBytesSpace d = false) :
+    stripC [a, b, c, d] = [a, b, c, d] := by
+  have := stripC_core a d [b, c] [] ha hd (by rfl)
+  simpa using this
+
 /-- sign part of `int(s, 16)` -/
 def signPart (s : List Nat) : Bool × List Nat :=
   match s with
@@ -78,8 +83,8 @@ def prefixPart (s : List Nat) : List Nat :=
   | _ => s
 
 theorem intBase16_eq (s : List Nat) :
-    intBase16 s = (match hexDigitsLoop (prefixPart (signPart (strip s)).2) 0 false false with
-      | some v => .ok (if (signPart (strip s)).1 then -(v : Int) else (v : Int))
+    intBase16 s = (match hexDigitsLoop (prefixPart (signPart (stripC s)).2) 0 false false with
+      | some v => .ok (if (signPart (stripC s)).1 then -(v : Int) else (v : Int))
       | none => .error .valueError) := by
   rfl
 
@@ -107,7 +112,8 @@ theorem intBase16_four (a b c d ta tb tc td : Nat)
     (ha : hexVal? a = some ta) (hb : hexVal? b = some tb) (hc : hexVal? c = some tc)
     (hd : hexVal? d = some td) :
     intBase16 [a, b, c, d] = .ok ((((ta * 16 + tb) * 16 + tc) * 16 + td : Nat) : Int) := by
-  have hs := strip_four a b c d (hexVal_not_space a ta ha) (hexVal_not_space d td hd)
+  have hs := stripC_four a b c d (not_isBytesSpace_of_not_isStrSpace a (hexVal_not_space a ta ha))
+    (not_isBytesSpace_of_not_isStrSpace d (hexVal_not_space d td hd))
   have hloop := hexLoop_four a b c d ta tb tc td ha hb hc hd
   have ra := hexVal_range a ta ha
   have rb := hexVal_range b tb hb
